@@ -63,7 +63,7 @@ def run(ctx):
         m += linear.linear(ctx, Fn(fx.raw(fid)), 'memory::secure_pool::SecureChunk')
         ctx.analysed_fns.add(fid)
     ctx.instance("R-LINEAR.sites", m)
-    ctx.floor("R-LINEAR.sites", 12)
+    ctx.floor("R-LINEAR.sites", 10)   # Option/Result/ControlFlow/bare SecureChunk locals produced by calls (containers and references are not owners)
     # (5) who may drop an arena
     linear.arena(ctx, fx, FILES)
     ctx.floor("R-ARENA.arena_types", 5)
